@@ -57,7 +57,7 @@ let s_cst = function
 let s_sst = function
   | SPoll -> "poll" | SMore _ -> "more" | SAwaitCont _ -> "cont" | SClosed -> "closed"
   | SCrashed c -> "crashed:" ^ crash_name c
-let s_hst = function HAccum _ -> "accum" | HClosed -> "closed" | HCrashed c -> "crashed:" ^ crash_name c
+let s_hst = function HAccum _ -> "accum" | HClosed -> "closed"
 let s_call = function CallPut o -> "put:" ^ hex_of_bytes o | CallGet o -> "get:" ^ hex_of_bytes o | CallHo o -> "ho:" ^ hex_of_bytes o
 let s_outs l = slist hex_of_bytes l
 let s_steps l = String.concat "|" (List.map (fun (i, outs) -> s_input i ^ ">" ^ s_outs outs) l)
@@ -67,31 +67,31 @@ let s_event = function Ev (toc, x, outs) -> (if toc then "c:" else "s:") ^ s_inp
 let handle (w : string list) : string =
   match w with
   | ["chunks"; miu; d] -> s_outs (chunks (zi miu) (bytes_of_hex d))
-  | ["client"; miu; cpl; cplx; op; script] ->
+  | ["client"; miu; cpl; op; script] ->
       let (st, outs0) = client_start (zi miu) (p_op op) in
-      let (steps, fin) = client_script (plist bytes_of_hex cpl) (plist bytes_of_hex cplx) st (plist p_input script) in
+      let (steps, fin) = client_script (plist bytes_of_hex cpl) st (plist p_input script) in
       s_outs outs0 ^ (if steps = [] then "" else "|" ^ s_steps steps) ^ "||" ^ s_cst fin
-  | ["snepsrv"; miu; maxacc; dec; decx; answers; script] ->
+  | ["snepsrv"; miu; maxacc; dec; answers; script] ->
       let s0 = { sv_st = SPoll; sv_app = plist p_answer answers; sv_log = [] } in
-      let (steps, fin) = snep_server_script (plist bytes_of_hex dec) (plist bytes_of_hex decx) (zi maxacc) (zi miu) s0 (plist p_input script) in
+      let (steps, fin) = snep_server_script (plist bytes_of_hex dec) (zi maxacc) (zi miu) s0 (plist p_input script) in
       s_steps steps ^ "||" ^ s_sst fin.sv_st ^ "||" ^ slist s_call fin.sv_log
-  | ["hosrv"; miu; reset; cpl; cplx; hr; answers; script] ->
+  | ["hosrv"; miu; reset; cpl; hr; answers; script] ->
       let s0 = { hv_st = HAccum []; hv_app = plist p_answer answers; hv_log = [] } in
-      let (steps, fin) = ho_server_script (plist bytes_of_hex cpl) (plist bytes_of_hex cplx) (plist bytes_of_hex hr) (zi miu) (reset = "1") s0 (plist p_input script) in
+      let (steps, fin) = ho_server_script (plist bytes_of_hex cpl) (plist bytes_of_hex hr) (zi miu) (reset = "1") s0 (plist p_input script) in
       s_steps steps ^ "||" ^ s_hst fin.hv_st ^ "||" ^ slist s_call fin.hv_log
-  | ["snep"; miu_cs; miu_sc; maxacc; dec; decx; answers; ops; fuel] ->
+  | ["snep"; miu_cs; miu_sc; maxacc; dec; answers; ops; fuel] ->
       let ops = plist p_op ops in
       let (_, outs0) = start_ops (zi miu_cs) ops [] in
-      let (g, tr) = snep_exec (plist bytes_of_hex dec) (plist bytes_of_hex decx) (zi miu_cs) (zi miu_sc) (zi maxacc)
+      let (g, tr) = snep_exec (plist bytes_of_hex dec) (zi miu_cs) (zi miu_sc) (zi maxacc)
                       (plist p_answer answers) ops (nat_of_int (int_of_string fuel)) in
       let quiet = ((Obj.magic g.g_cs : input list) = []) && ((Obj.magic g.g_sc : input list) = []) in
       "init>" ^ slist s_input outs0 ^ (if tr = [] then "" else "|" ^ String.concat "|" (List.map s_event tr))
       ^ "||" ^ slist s_res g.g_c.c_results ^ "||" ^ s_cst g.g_c.c_cur ^ "||" ^ s_sst g.g_s.sv_st ^ "||" ^ slist s_call g.g_s.sv_log
       ^ "||" ^ s_bool quiet ^ "||" ^ s_bool g.g_err
-  | ["ho"; miu_cs; miu_sc; reset; cpl; cplx; hr; answers; ops; fuel] ->
+  | ["ho"; miu_cs; miu_sc; reset; cpl; hr; answers; ops; fuel] ->
       let ops = plist p_op ops in
       let (_, outs0) = start_ops (zi miu_cs) ops [] in
-      let (g, tr) = ho_exec (plist bytes_of_hex cpl) (plist bytes_of_hex cplx) (plist bytes_of_hex hr) (zi miu_cs) (zi miu_sc) (reset = "1")
+      let (g, tr) = ho_exec (plist bytes_of_hex cpl) (plist bytes_of_hex hr) (zi miu_cs) (zi miu_sc) (reset = "1")
                       (plist p_answer answers) ops (nat_of_int (int_of_string fuel)) in
       let quiet = ((Obj.magic g.g_cs : input list) = []) && ((Obj.magic g.g_sc : input list) = []) in
       "init>" ^ slist s_input outs0 ^ (if tr = [] then "" else "|" ^ String.concat "|" (List.map s_event tr))
